@@ -954,6 +954,24 @@ class FnTranslator:
             a = self.expr(args[0], env)
             if a.ty == 'bmask':
                 return a                   # drops the (unmodelled) channel axis
+        if fname == 'ndimage.zoom':
+            kws = {kw.arg: kw.value for kw in node.keywords}
+            a = self.expr(args[0], env)
+            zn = kws.get('zoom', args[1] if len(args) > 1 else None)
+            if a.ty != ARR or zn is None:
+                raise TransError('ndimage.zoom arguments at line %d' % node.lineno)
+            z = self.expr(zn, env)
+            order = self.coerce(self.expr(kws['order'], env), Z) if 'order' in kws else Expr('(3)%Z', Z)
+            if isinstance(z.ty, tuple) and z.ty[0] == 'tuple' and len(z.ty[1]) == 3:
+                names = self.tuple_components(z)
+                comps = [self.coerce(Expr(n, t), Q) for n, t in zip(names, z.ty[1])]
+                code = "(let '(%s) := %s in v_zoom %s %s %s %s %s)" % (', '.join(names), z.code,
+                                                                      comps[0].code, comps[1].code, comps[2].code, order.code, a.code)
+                return Expr(code, ARR, a.binds + z.binds + order.binds)
+            zq = self.coerce(z, Q)
+            t = self.fresh('zf')
+            return Expr('(let %s := %s in v_zoom %s %s %s %s %s)' % (t, zq.code, t, t, t, order.code, a.code), ARR,
+                        a.binds + zq.binds + order.binds)
         if fname == 'np.pad':
             a = self.expr(args[0], env)
             kws = {kw.arg: kw.value for kw in node.keywords}
